@@ -38,7 +38,7 @@ def run(cx):
         wc = cx.calls(f, r'InnerInMemory::inner_lookup_wildcard$')
         cx.guard('C10.P1', wc, {'no-exact-or-cname-match': r'^!ok\(Option::map\(Iterator::find\(BTreeMap::range\(arg1\.records,'}, expect=1, fn=f)
         # RFC 4592 2.2.1/3.3.1: a name that exists (with other types, or as an empty non-terminal) blocks synthesis -> F6a
-        NAME_ABSENT = r'^!?(?!.*closure:InnerInMemory::inner_lookup::\{closure#0\}).*(arg1\.records|InnerInMemory::\w*exist\w*\()'
+        NAME_ABSENT = r'^!?(?!.*closure:InnerInMemory::inner_lookup::\{closure@find#0\}).*(arg1\.records|InnerInMemory::\w*exist\w*\()'
         w0 = prog.fn(I + 'inner_lookup_wildcard')
         first = cx.assigns(w0, r'^LowerName::into_wildcard\(arg2\)$', place=None)[:1] if w0 else []
         for s in wc:
@@ -49,7 +49,7 @@ def run(cx):
         cut = [t for bb in range(len(f.blocks)) for t, ps in f.edge_props(bb).items() if any(re.search(r'^!BTreeMap::contains_key\(arg1\.records,RrKey::new\(.*RecordType::SOA\)\)$', shorten(p)) for p in ps)]
         cx.check('C10.P1', len(cut) >= 1, f.path, 'edge', 'cut-edge-present', str(len(cut)))
     fc = None
-    for g in prog.find(r'InnerInMemory::inner_lookup::\{closure#\d+\}$'):
+    for g in prog.find(r'InnerInMemory::inner_lookup::\{closure[^}]*\}$'):
         t = cx.true_returns(g)
         if t and any('record_type' in (s.term + ' '.join(s.extra)) for s in t):
             fc = g
@@ -82,10 +82,10 @@ def run(cx):
         syn = cx.returns(w, r'^Option::Some\(RecordSet::with_ttl\(into<Name>\(arg2\),')
         cx.guard('C10.G1', syn, {'wildcard-found': r'^ok\(InnerInMemory::inner_lookup\(arg1,phi\(LowerName::into_wildcard\('}, expect=1, fn=w)
     # ---------------------------------------------------------------- G2 negative decision
-    M = '<hickory_server::store::in_memory::InMemoryZoneHandler<P> as hickory_server::zone_handler::ZoneHandler>::lookup::{closure#0}'
+    M = '<hickory_server::store::in_memory::InMemoryZoneHandler<P> as hickory_server::zone_handler::ZoneHandler>::lookup::{closure@pin#0}'
     m = cx.fn('C10.G2', M)
     if m:
-        ANY = r"Iterator::any\(BTreeMap::keys\(await\(RwLock::read\(\^arg1\.inner\)\)@Ready\.0\.records\),closure:<InMemoryZoneHandler<P> as ZoneHandler>::lookup::\{closure#0\}::\{closure#7\}\)"
+        ANY = r"Iterator::any\(BTreeMap::keys\(await\(RwLock::read\(\^arg1\.inner\)\)@Ready\.0\.records\),closure:<InMemoryZoneHandler<P> as ZoneHandler>::lookup::\{closure@pin#0\}::\{closure@any#0\}\)"
         ne = cx.assigns(m, r'^LookupError::NameExists$', place=None)
         cx.guard('C10.G2', ne, {'some-key-at-or-below-name': '^' + ANY + '$'}, expect=1, fn=m)
         nx = cx.assigns(m, r'^ResponseCode::NXDomain$', place=None)
@@ -98,7 +98,7 @@ def run(cx):
                      'NXDOMAIN is decided from "no key at or below the name" alone; when *.closest-encloser exists without the query type the answer must be NODATA', s.loc)
         il = cx.calls(m, r'InnerInMemory::inner_lookup$')
         cx.check('C10.G2', len(il) == 1, m.path, 'calls', 'single-data-lookup', str(len(il)))
-    k = cx.fn('C10.G2', M + '::{closure#7}')
+    k = cx.fn('C10.G2', M + '::{closure@any#0}')
     if k:
         t = cx.true_returns(k)
         props = set()
@@ -113,7 +113,7 @@ def run(cx):
         aa = cx.assigns(b, r'^true$', place=r'authoritative$')
         cx.check('C10.G3', len(aa) == 1 and not (__import__('core').path_props(b, aa[0].bb) or []), b.path, 'store', 'AA-set-unconditionally', str(len(aa)))
         ext = cx.calls(b, r'Vec<T, A> as .*Extend<T>>::extend$|Vec::extend$')
-        REF = r"Option::is_some_and\(<AuthLookupIter<'r> as Iterator>::next\(AuthLookup::iter\(.*\)\),closure:catalog::build_authoritative_response::\{closure#0\}::\{closure#1\}\)"
+        REF = r"Option::is_some_and\(<AuthLookupIter<'r> as Iterator>::next\(AuthLookup::iter\(.*\)\),closure:catalog::build_authoritative_response::\{closure#0\}::\{closure@is_some_and#0\}\)"
         ans = [s for s in ext if '.answers,' in s.term]
         cx.guard('C10.G3', ans, {'not-a-referral': '^!' + REF + '$', 'lookup-succeeded': r'^ok\(\^arg1\)$'}, expect=1, fn=b)
         auth_ref = [s for s in ext if '.authorities,' in s.term and cx.has_guard(s, '^' + REF + '$')]
@@ -127,8 +127,8 @@ def run(cx):
         neg = [s for s in cx.calls(b, r'ZoneHandler::(nsec_records|nsec3_records)$') if cx.has_guard(s, r'^!ok\(phi\(Option::Some\(\^arg1@Ok\.0\)\|Option::None\)\)$')]
         cx.guard('C10.G3', neg, {'DO-set': r'^\^arg4\.dnssec_ok$'}, expect=2, fn=b)
         pos = [s for s in cx.calls(b, r'ZoneHandler::nsec_records$') if cx.has_guard(s, r'^ok\(phi\(Option::Some\(\^arg1@Ok\.0\)\|Option::None\)\)$')]
-        cx.guard('C10.G3', pos, {'wildcard-matched-answer': r'^Iterator::any\(AuthLookup::iter\(.*\),closure:catalog::build_authoritative_response::\{closure#0\}::\{closure#0\}\)$'}, expect=1, fn=b)
-    r1 = cx.fn('C10.G3', 'hickory_server::zone_handler::catalog::build_authoritative_response::{closure#0}::{closure#1}')
+        cx.guard('C10.G3', pos, {'wildcard-matched-answer': r'^Iterator::any\(AuthLookup::iter\(.*\),closure:catalog::build_authoritative_response::\{closure#0\}::\{closure@any#0\}\)$'}, expect=1, fn=b)
+    r1 = cx.fn('C10.G3', 'hickory_server::zone_handler::catalog::build_authoritative_response::{closure#0}::{closure@is_some_and#0}')
     if r1:
         t = cx.true_returns(r1)
         cx.guard('C10.G3', t, {'first-record-is-NS': r'^eq:RecordType\(RecordType::NS,Record::record_type\(arg2\)\)$',
